@@ -178,6 +178,10 @@ def gen_service(rng, case, nops):
             ops.append(['svc_sync'])
         else:
             # service restart as services/_base_service.py does it: initialize, replay live requests, synchronize
+            if rng.random() < 0.4:          # host reboot: the veth pairs are gone, vips/ persists
+                for q in range(1, no + 1):
+                    if rng.random() < 0.7:
+                        ops.append(['veth_down', q])
             ops.append(['svc_restart'])
             for q in range(1, no + 1):
                 if rng.random() < 0.6:
@@ -430,6 +434,10 @@ class World:
         elif k in ('res_down', 'app_down'):
             shutil.rmtree(os.path.join(self.res_dir if k == 'res_down' else self.apps_dir, self.name(op[1])),
                           ignore_errors=True)
+        elif k == 'veth_down':
+            veth0 = impl()['network_service']._device_from_rsrc_id(self.name(op[1]))[0]
+            if veth0 in self.netdev.devs:
+                self.netdev.link_del_veth(veth0)
         elif k == 'vip_alloc':
             picked = None if op[2] is None else ip_str(op[2])
             return [0, ip_int(self.vips.alloc(self.name(op[1]), picked))]
@@ -676,6 +684,8 @@ def t_op(op):
         return 'AppUp %s' % G.z(op[1])
     if k == 'app_down':
         return 'AppDown %s' % G.z(op[1])
+    if k == 'veth_down':
+        return 'VethDown %s' % G.z(op[1])
     if k == 'vip_alloc':
         return 'VipAlloc %s %s' % (G.z(op[1]), t_optz(op[2]))
     if k == 'vip_free':
